@@ -6,7 +6,7 @@ CONSTANTS
   Atoms <- LvAtoms1
   Opqs <- NoneSet
   LitTok = 2
-  UnOps <- AllUn
+  UnOps <- MinUn
   BinOps <- MinBin
   BoolOps <- AllBool
   CmpOps <- MinCmp
